@@ -176,7 +176,9 @@ def _cb_signature(value, j, d, default):
         return default
     dual_id = ref.partial_trace(j, [1], [d, d]).T  # Phi*(I) = (Tr_out J)^T
     tn, on = ref.trace_norm(dual_id), H.op_norm(dual_id)
-    if abs(value - tn) <= 1e-6 * max(1.0, tn) and abs(tn - on) > 1e-4 * max(1.0, tn):
+    # (no minimum gap between the two norms is required: this function is only consulted after the value failed the
+    # comparison with the operator norm, and a fixed gap would mis-file instances with a nearly rank-one Phi*(I))
+    if abs(value - tn) <= 1e-6 * max(1.0, tn):
         return KF_SIG
     return default
 
